@@ -11,7 +11,7 @@ def prop( pid, rules, decides, not_decided, technique, thorough_rules=(), assump
                        assumptions=list( assumptions ))
 
 
-prop( 'C05', [ 'S-STATUS', 'D-VALIDATE', 'W-ATTR', 'T-ALLOWED', 'T-TYPENAMES', 'K-KEYPASS', 'G-INIT', 'D-PATHSTOP', 'L-TEXTCODEC', 'D-UNPACKFMT', 'T-TYPEDLOOP', 'D-OWNPATH', 'T-SYMBOL', 'W-PRINT', 'F-FRAG', 'F-STATUS', 'D-NOSUCH', 'W-ASSERT' ],
+prop( 'C05', [ 'S-STATUS', 'D-VALIDATE', 'W-ATTR', 'T-ALLOWED', 'T-TYPENAMES', 'K-KEYPASS', 'G-INIT', 'D-PATHSTOP', 'L-TEXTCODEC', 'D-UNPACKFMT', 'T-TYPEDLOOP', 'D-OWNPATH', 'T-SYMBOL', 'W-PRINT', 'F-FRAG', 'F-STATUS', 'D-NOSUCH', 'W-ASSERT', 'S-PHASE' ],
       decides='T-SYMBOL: the canonical form of a tag name is its lower-case spelling ( no case folding that maps distinct ISO-8859-1 names onto one symbol ), so a request naming an unknown tag cannot resolve to a configured one.  T-TYPEDLOOP as for C01.  D-VALIDATE also: the WHOLE requested extent ( path index + elements ) is asserted to lie inside the tag for reads and writes alike, ahead of any fragment being served or stored.  D-OWNPATH: in Object.request and Logix.request every access to the handler\'s own attributes is dominated by the assertion that the request path names this object (class and instance of resolve( data.path )): a request for an unknown object is refused, never served from or stored into the attribute of the same number.  L-TEXTCODEC: per codec class the producer encodes text with the character set its parser decodes with (an accepted STRING / SSTRING write stays readable and reads back equal).  D-UNPACKFMT: Set Attribute Single converts EVERY received element with the Attribute\'s own struct format (on every path to the store), so the stored values are in the tag type\'s range and the tag stays readable.  D-PATHSTOP (unknown-tag clause): device.resolve never skips a SYMBOLIC path segment - its skip test is false on every symbolic cell of the decision table and skipping is per segment ( continue, not break ), so a name behind a resolved tag ( A.foo, A[1].foo ) is resolved or refused, not served from A.  S-STATUS: typestate of data.status over the statement CFG of every CIP request handler - at every statement inside '
               'the try that may raise, the status is a known non-success constant (so a refused request is answered with a failure), '
               'the handler never re-raises or resets it, and at the named program points of Logix.request the codes are 0x05 (resolve/lookup), '
@@ -61,7 +61,7 @@ prop( 'C20', [ 'T-TNET', 'P-CHAIN', 'G-CHUNK', 'G-REF', 'P-SEPARATORS' ],
       not_decided='value round trip for all values, nesting depth; chunking beyond the separator / chain-unmodified / chunk-transparent-grammar clauses (dynamic).',
       technique='encoder/decoder idiom classification over dispatch chains (AST pattern matching); grammar extraction' )
 
-prop( 'C03', [ 'W-ATTR', 'D-VALIDATE', 'R-SNAPSHOT', 'D-TYPE', 'T-TYPENAMES', 'T-ATTRKEYS', 'T-SYMBOL', 'D-PATHSTOP', 'K-KEYPASS', 'T-RETAG', 'T-TAGLOOP', 'D-OWNPATH', 'D-UNPACKFMT', 'F-FRAG', 'P-ROUTEFIRST', 'F-STATUS', 'W-ASSERT' ],
+prop( 'C03', [ 'W-ATTR', 'D-VALIDATE', 'R-SNAPSHOT', 'D-TYPE', 'T-TYPENAMES', 'T-ATTRKEYS', 'T-SYMBOL', 'D-PATHSTOP', 'K-KEYPASS', 'T-RETAG', 'T-TAGLOOP', 'D-OWNPATH', 'D-UNPACKFMT', 'F-FRAG', 'P-ROUTEFIRST', 'F-STATUS', 'W-ASSERT', 'S-PHASE' ],
       decides='T-TAGLOOP: main()\'s per-tag configuration loop reads no local on a path of the iteration that has not assigned it (no address / attribute carried over from the previous tag argument).  T-RETAG: setup_tag stores the CONFIGURED Attribute into the instance\'s attribute table at both sites (creation, replacement of an existing tag) - a replacement that stores the existing Attribute back keeps serving the array of an earlier configuration.  storage-discipline clauses only.  W-ATTR: tags are mutated only by statements reachable for the write services '
               '(Write Tag, Write Tag Fragmented, Set Attribute Single) - no read service and no refused request changes a tag; '
               'D-VALIDATE: the tag store is dominated by type and range validation, the stored slice is the validated (beg,end), the write-capacity '
@@ -133,7 +133,7 @@ prop( 'C18', [ 'T-RECORD', 'H-PARSE', 'H-FILES', 'H-NATURAL', 'H-OPENER', 'H-PAC
       technique='writer/reader field-table agreement (AST patterns); forward data-flow and path counting over a statement CFG of '
                 'parse_record / reader.open / loader.load; typestate (finite abstract-state sets to a fixpoint) for the strict flag; decision-table evaluation of the file-selection predicates; state-table exhaustiveness' )
 
-prop( 'C04', [ 'F-FRAG', 'F-STATUS', 'D-VALIDATE', 'W-ATTR', 'S-EXT', 'F-CLIENT', 'T-TYPEDLOOP', 'L-SPEC', 'W-ASSERT' ],
+prop( 'C04', [ 'F-FRAG', 'F-STATUS', 'D-VALIDATE', 'W-ATTR', 'S-EXT', 'F-CLIENT', 'T-TYPEDLOOP', 'L-SPEC', 'W-ASSERT', 'S-PHASE' ],
       decides='T-TYPEDLOOP: in the typed_data grammar every element loop is closed on its own type (the collector behind TYPE() takes .TYPE and returns to the head that leads to TYPE()), so the second and later elements of a fragment are parsed with the type of the first.  the form of the fragment arithmetic, by algebra on a linear normal form and by structure, never by evaluating it on sample '
               'numbers.  F-FRAG (Logix.reply_elements): the byte offset is split into quotient and remainder by the element size '
               '( off // siz, off - q * siz | off % siz | divmod ), siz = attribute.parser.struct_calcsize, the offset is honoured for the '
@@ -190,7 +190,7 @@ prop( 'C02', [ 'G-CHUNK', 'G-FRAME', 'P-ACT', 'P-ONE', 'P-CHAIN', 'R-ISO', 'N-RE
       technique='grammar-graph extraction by abstract interpretation of the builder code + edge-kind analysis; path effect counting and '
                 'must-pass-through on the CFG; AST idiom matching on the framework loops' )
 
-prop( 'C07', [ 'A-OFFSETS', 'P-ORDER', 'P-EACH', 'P-CLOSURE', 'R-LOCK-5', 'R-LOCK-6', 'P-FRESH', 'P-BUNDLE', 'S-RESOLVE', 'D-PATHSTOP', 'S-STATUS', 'R-STATELESS', 'D-OWNPATH', 'S-LONE', 'P-ROUTEFIRST', 'P-ONCE', 'D-NOSUCH', 'W-ASSERT' ],
+prop( 'C07', [ 'A-OFFSETS', 'P-ORDER', 'P-EACH', 'P-CLOSURE', 'R-LOCK-5', 'R-LOCK-6', 'P-FRESH', 'P-BUNDLE', 'S-RESOLVE', 'D-PATHSTOP', 'S-STATUS', 'R-STATELESS', 'D-OWNPATH', 'S-LONE', 'P-ROUTEFIRST', 'P-ONCE', 'D-NOSUCH', 'W-ASSERT', 'S-PHASE' ],
       decides='P-EACH / P-CLOSURE also ( one member cannot take its neighbours with it ): the per-member dispatch in Message_Router.request and the per-member parse in the closure are each protected inside their member loop ( defect AM, repaired: an unsupported service used to fail the whole bundle, an unparseable member used to truncate it silently ).  D-OWNPATH: see C05.  A-OFFSETS: the two offset-table emitters of Message_Router.produce and the two slice bounds of the parser closure '
               'normalise (linear-expression normaliser) to 2 + 2*N relative to the running offset, the count field is the number of '
               'offsets, members are sliced between consecutive offsets (last to the end) and appended in order; P-ORDER: in both produce '
